@@ -81,12 +81,15 @@ class FrameCollector:
         self.__has_time_exceeded = False
         self.__source = source
         self.__frame = frame
+        # the time budget is for this collection; measured from the start of the trace event (source.ts) a slow
+        # collection for one tracepoint would leave the other tracepoints of the same event without their variables
+        self.__started = time_ns()
 
     def __time_exceeded(self) -> bool:
         if self.__has_time_exceeded:
             return self.__has_time_exceeded
 
-        duration = (time_ns() - self.__source.ts) / 1000000  # make duration ms not ns
+        duration = (time_ns() - self.__started) / 1000000  # make duration ms not ns
         self.__has_time_exceeded = duration > self.__source.max_tp_process_time
         return self.__has_time_exceeded
 
